@@ -188,8 +188,10 @@ class Result:
         self.counters.update(r.get('counters', {}))
         self.violations.extend(r.get('violations', []))
         for s in r.get('samples', []):
-            if len(self.samples) < 6:
-                self.samples.append(s)
+            self.samples.append(s)
+            if len(self.samples) > 40:      # keep a spread: largest descriptions survive
+                self.samples.sort(key=lambda x: -len(repr(x)))
+                del self.samples[12:]
         self.outcomes.update(tuple(o) if isinstance(o, list) else o
                              for o in r.get('outcomes', []))
         self.distinct.update(r.get('distinct', ()))
@@ -277,7 +279,7 @@ def finish(result, tier, level, rule, assumptions, t0, coverage_extra=None,
         'distinct_nontrivial': len(result.distinct) if result.distinct
         else int(c.get(nontrivial_key, 0)),
         'rule': rule,
-        'samples': result.samples[:6] or ['(none)'],
+        'samples': sorted(result.samples, key=lambda x: -len(repr(x)))[:6] or ['(none)'],
         'states': int(c.get(states_key, 0)),
         'transitions': int(c.get(transitions_key, 0)),
         'traces_validated_against_impl': int(c.get('traces_validated', c.get(states_key, 0))),
